@@ -18,7 +18,7 @@ from common import CICADA, HELPERS, Report, ToolError, check_action_coverage, cl
 import tracecheck
 
 TEXT = {"t1": "plain words", "t2": "it's", "t3": 'a"b', "t4": "100%", "t5": "a_b", "t6": "a\\b", "t7": "x; --", "t8": ")", "t9": "é 你"}
-PAT = {"p1": "it's", "p2": "%", "p3": "_", "p4": "a\\b", "p5": "--", "p6": "plain"}
+PAT = {"p1": "it's", "p2": "%", "p3": "_", "p4": "a\\b", "p5": "--", "p6": "plain", "p7": "a\\", "p8": "\\b", "p9": "0%", "p10": "\\"}
 DIR = {"d1": "plain", "d2": "d'q", "d3": "d%p"}
 
 
@@ -132,6 +132,9 @@ def runner(rep, tier, seed, replay):
     rep.add_tlc(rt)
     typed = [h for h in rt.replays if sum(1 for o in h if o["op"] == "typed") >= (4 if tier == "quick" else 3)]
     hists += typed
+    # every text stored once, then every pattern searched (also patterns that begin / end with a backslash or hold a `%` that
+    # must match itself), then the listing: a search returns at least the rows that hold the pattern literally
+    hists.append([{"op": "add", "text": t, "dir": "d1"} for t in sorted(TEXT)] + [{"op": "search", "pat": q} for q in sorted(PAT)] + [{"op": "list"}])
     with ProcessPoolExecutor(max_workers=8) as ex:
         runs = list(ex.map(run_history, [(h, seed) for h in hists]))
     bad = [e for (_, e) in runs if e]
